@@ -343,6 +343,75 @@ class Interp:
             self.pc.append(z3.Not(cond))
             return False
 
+    def add_forall(self, v, name=""):
+        """assume a (possibly nested) ForallV: kept as a QFact over placeholder variables"""
+        qvars, ranges = [], []
+        cur = v
+        while isinstance(cur, ForallV):
+            q = fresh("q", z3.IntSort())
+            qvars.append(q)
+            ranges.append(to_z3num(cur.n))
+            b = cur.body(q)
+            cur = b if isinstance(b, (ForallV, bool)) else self.truth(b)
+        if isinstance(cur, bool):
+            cur = z3.BoolVal(cur)
+        if not is_z3(cur):
+            raise Unsupported("body of a quantified assumption is %r" % (cur,))
+        self.qfacts.append(QFact(qvars, ranges, cur, name))
+
+    def branch_quantified(self, c):
+        """decide a condition of the form  P and (forall k. B(k))  /  P and (exists k. B(k))  (P optional)"""
+        plain = True
+        q = c
+        if isinstance(c, tuple) and c and c[0] == "and":
+            plain = conj(*c[1])
+            q = c[2]
+        n = to_z3num(q.n)
+        if isinstance(q, ForallV):
+            alt = self.chooser.choose(3)
+            if alt == 0:
+                self.assume(plain)
+                self.add_forall(q, "branch")
+                if not self.feasible():
+                    raise Infeasible()
+                return True
+            if alt == 1:
+                self.assume(neg(plain))
+                if not self.feasible():
+                    raise Infeasible()
+                return False
+            sk = fresh("wit", z3.IntSort())
+            self.register_index(sk)
+            self.assume(plain)
+            self.assume(z3.And(0 <= sk, sk < n))
+            b = self.truth(q.body(sk))
+            if isinstance(b, (ForallV, ExistsV)):
+                raise Unsupported("nested quantifier in a branch condition")
+            self.assume(neg(b))
+            if not self.feasible():
+                raise Infeasible()
+            return False
+        # exists
+        alt = self.chooser.choose(3)
+        if alt == 0:
+            sk = fresh("wit", z3.IntSort())
+            self.register_index(sk)
+            b = self.truth(q.body(sk))
+            self.assume(conj(plain, z3.And(0 <= sk, sk < n), b))
+            if not self.feasible():
+                raise Infeasible()
+            return True
+        if alt == 1:
+            self.assume(neg(plain))
+            if not self.feasible():
+                raise Infeasible()
+            return False
+        self.assume(plain)
+        self.add_forall(ForallV(q.n, lambda k, q=q: neg(self.truth(q.body(k)))), "branch")
+        if not self.feasible():
+            raise Infeasible()
+        return False
+
     def oblige(self, kind, name, goal, line=None, note=""):
         if goal is True:
             return
@@ -351,6 +420,77 @@ class Interp:
         ob = Obligation(self.oblig_prefix + name, kind, list(self.facts) + list(self.pc), goal, line, qfacts=list(self.qfacts), index_terms=list(self.index_terms), note=note)
         self.obligations.append(ob)
         return ob
+
+    def make_sum(self, fn, lo, hi):
+        """SUM_{lo <= k < hi} fn(k); fn is evaluated for a generic in-range index (so dispatch on the element's class can use
+        the quantified assumptions), silently (definedness of the summand is the caller's business)"""
+
+        def wrapped(k):
+            self.index_terms.append(k)
+            self.pc.append(z3.And(to_z3num(lo) <= k, k < to_z3num(hi)))
+            save = self.definedness
+            self.definedness = False
+            try:
+                return fn(k)
+            finally:
+                self.definedness = save
+                self.pc.pop()
+                self.index_terms.pop()
+
+        K = sums.K
+        lo_t, hi_t = to_z3num(lo), to_z3num(hi)
+        ctx = {"solver": None}
+
+        def solver():
+            if ctx["solver"] is None:
+                s = z3.Solver()
+                s.set("timeout", 2000)
+                base = list(self.facts) + list(self.pc) + [lo_t <= K, K < hi_t]
+                for q in self.qfacts:
+                    base += q.instances(list(self.index_terms) + [K])
+                s.add(*base)
+                ctx["solver"] = s
+                ctx["base"] = base
+            return ctx["solver"]
+
+        def valid(f):
+            s = solver()
+            s.push()
+            s.add(z3.Not(f))
+            s.add(*core.list_axiom_instances(ctx["base"] + [f]))
+            r = s.check()
+            s.pop()
+            return r == z3.unsat
+
+        def rewriter(g):
+            # idx_f(o, elem_f(o, K)) -> K  when [lo, hi) lies inside the list (elements are pairwise distinct: wf)
+            reps = []
+            for x in core.uninterp_apps(g):
+                nm = x.decl().name()
+                if nm.startswith("idx(") and x.num_args() == 2:
+                    field = nm[4:-1]
+                    inner = x.arg(1)
+                    if z3.is_app(inner) and inner.num_args() == 2 and inner.decl().name() == field + "[]" and inner.arg(0).eq(x.arg(0)) and inner.arg(1).eq(K):
+                        llen = core.list_funcs(field)[0]
+                        if valid(z3.And(K >= 0, K < llen(x.arg(0)))):
+                            reps.append((x, K))
+            if reps:
+                g = z3.simplify(z3.substitute(g, *reps))
+            return g
+
+        def guard_simplifier(guard):
+            if valid(guard):
+                return True
+            if valid(z3.Not(guard)):
+                return False
+            return None
+
+        try:
+            return sums.make_sum(wrapped, lo, hi, rewriter=rewriter, guard_simplifier=guard_simplifier)
+        except Infeasible:
+            if not self.feasible(lo_t < hi_t):
+                return z3.RealVal(0)  # empty range on this path
+            raise
 
     def register_index(self, k):
         for t in self.index_terms:
@@ -362,6 +502,8 @@ class Interp:
     def truth(self, v):
         if v is None:
             return False
+        if isinstance(v, tuple) and v and isinstance(v[0], str) and v[0] == "and" and len(v) == 3 and isinstance(v[2], (ForallV, ExistsV)):
+            return v
         if isinstance(v, (bool, int, float, str, list, tuple, dict, set, frozenset, np.generic)):
             return bool(v)
         if is_z3(v):
@@ -369,6 +511,8 @@ class Interp:
                 return v
             if z3.is_arith(v):
                 return v != 0
+            if v.sort() == core.Str:
+                return v != str_const("")
             raise Unsupported("truthiness of %s" % v.sort())
         if isinstance(v, ObjV):
             if v.maybe_none:
@@ -380,7 +524,9 @@ class Interp:
             return v.n > 0
         if isinstance(v, (ClassV, FuncV, BoundMethod, ModuleV, LambdaV)):
             return True
-        if isinstance(v, ForallV):
+        if isinstance(v, (ForallV, ExistsV)):
+            return v
+        if isinstance(v, tuple) and v and v[0] == "and":
             return v
         if isinstance(v, Opaque):
             raise Unsupported("truthiness of opaque value %s" % v.what)
@@ -712,6 +858,8 @@ class Interp:
             t = self.truth(v)
             if isinstance(t, ForallV):
                 return ExistsV(t.n, lambda k, t=t: neg(core.to_bool(t.body(k))))
+            if isinstance(t, ExistsV):
+                return ForallV(t.n, lambda k, t=t: neg(core.to_bool(t.body(k))))
             return neg(t) if not isinstance(t, bool) else (not t)
         if isinstance(op, ast.USub):
             if is_arr(v):
@@ -886,8 +1034,9 @@ class Interp:
 
     def obj_attr(self, o, attr, node=None):
         if o.maybe_none:
-            self.oblige("defined", "attr-of-None.%s@L%s" % (attr, getattr(node, "lineno", "?")), o.ref != NONE, getattr(node, "lineno", None))
-            self.assume(o.ref != NONE)
+            if self.definedness:
+                self.oblige("defined", "attr-of-None.%s@L%s" % (attr, getattr(node, "lineno", "?")), o.ref != NONE, getattr(node, "lineno", None))
+                self.assume(o.ref != NONE)
             o = ObjV(o.ref, o.classes, False)
         groups = self._attr_groups(o, attr, node)
         if len(groups) == 1:
@@ -927,11 +1076,16 @@ class Interp:
             groups = [g for g in groups if self.feasible(CLASSES.classset_term(o.ref, g[2]))]
             if not groups:
                 raise Infeasible()
+        good = [g for g in groups if not (g[0] == "field" and g[1] is None)]
+        if not self.definedness:
+            # specification context: classes without the attribute are outside the clause's domain (the contract states
+            # the class restriction separately); nothing is assumed and nothing is obliged here
+            if not good:
+                raise Unsupported("attribute %s does not exist for %s" % (attr, sorted(o.classes)))
+            return good
         for g in groups:
             if g[0] == "field" and g[1] is None:
-                if len(groups) == 1 or True:
-                    self.oblige("defined", "attribute-exists:%s@L%s" % (attr, getattr(node, "lineno", "?")), neg(CLASSES.classset_term(o.ref, g[2])), getattr(node, "lineno", None), note="AttributeError: %s has no attribute %s" % (sorted(g[2]), attr))
-        good = [g for g in groups if not (g[0] == "field" and g[1] is None)]
+                self.oblige("defined", "attribute-exists:%s@L%s" % (attr, getattr(node, "lineno", "?")), neg(CLASSES.classset_term(o.ref, g[2])), getattr(node, "lineno", None), note="AttributeError: %s has no attribute %s" % (sorted(g[2]), attr))
         if not good:
             raise _Raise("AttributeError", node)
         if len(good) < len(groups):
@@ -997,6 +1151,8 @@ class Interp:
             cls = kind.split(":", 1)[1]
             r = h.read_scal(attr, "ref", o.ref)
             classes = self._expand(cls.split("|"))
+            prev = core.REF_FIELD_CLASSES.get("%s.%s:ref" % (h.tag, attr))
+            core.REF_FIELD_CLASSES["%s.%s:ref" % (h.tag, attr)] = (frozenset(classes | (prev[0] if prev else frozenset())), maybe or (prev[1] if prev else False))
             key = ("ref", attr, r.get_id())
             if key not in self._seen_elems:
                 self._seen_elems.add(key)
@@ -1019,11 +1175,11 @@ class Interp:
             if self.branch(isnone):
                 return None
             return HeapArr1(o, attr)
-        if kind == "real?":
+        if kind in ("real?", "int?", "str?"):
             isnone = h.read_scal(attr + "?none", "bool", o.ref)
             if self.branch(isnone):
                 return None
-            return h.read_scal(attr, "real", o.ref)
+            return h.read_scal(attr, kind[:-1], o.ref)
         if kind == "opaque":
             return Opaque("%s.%s" % (o.ref, attr))
         raise Unsupported("field kind %s" % kind)
@@ -1083,12 +1239,18 @@ class Interp:
                     h.write_scal(attr + "?none", "bool", o.ref, z3.BoolVal(False))
                 return
             raise Unsupported("non-array stored in array field %s" % attr)
-        if kind == "real?":
+        if kind in ("real?", "int?", "str?"):
             if val is None:
                 h.write_scal(attr + "?none", "bool", o.ref, z3.BoolVal(True))
             else:
                 h.write_scal(attr + "?none", "bool", o.ref, z3.BoolVal(False))
-                h.write_scal(attr, "real", o.ref, to_real(val))
+                if kind == "str?":
+                    val = str_const(val) if isinstance(val, str) else val
+                elif kind == "real?":
+                    val = to_real(val)
+                else:
+                    val = to_z3num(val)
+                h.write_scal(attr, kind[:-1], o.ref, val)
             return
         if kind == "opaque":
             return
@@ -1398,31 +1560,39 @@ class Interp:
         return self.unop(node.op, self.eval(node.operand, env), node)
 
     def e_BoolOp(self, node, env):
-        # short-circuit semantics: evaluate left to right; fold symbolic scalars into And/Or when the operands are boolean terms
-        vals = []
+        # short-circuit semantics: evaluate left to right; later operands are evaluated under the assumption that the
+        # earlier ones did not short-circuit; symbolic scalars are folded into And/Or
         is_and = isinstance(node.op, ast.And)
         result_terms = []
-        for sub in node.values:
-            v = self.eval(sub, env)
-            t = self.truth(v)
-            if isinstance(t, bool):
-                if is_and and not t:
-                    return v if not result_terms else False
-                if not is_and and t:
-                    return v if not result_terms else True
-                last = v
-                continue
-            if isinstance(t, (ForallV, ExistsV)):
+        n_pc = len(self.pc)
+        last = None
+        try:
+            for sub in node.values:
+                try:
+                    v = self.eval(sub, env)
+                except Infeasible:
+                    if len(self.pc) == n_pc:
+                        raise
+                    # the earlier operands cannot all be non-short-circuiting here: the remaining ones are never evaluated
+                    result_terms.append(not is_and)
+                    break
+                t = self.truth(v)
+                if isinstance(t, bool):
+                    if is_and and not t:
+                        return v if not result_terms else False
+                    if not is_and and t:
+                        return v if not result_terms else True
+                    last = v
+                    continue
+                if isinstance(t, (ForallV, ExistsV)):
+                    result_terms.append(t)
+                    last = v
+                    continue
                 result_terms.append(t)
+                self.pc.append(t if is_and else z3.Not(t))
                 last = v
-                continue
-            # symbolic: later operands are evaluated under the assumption that this one did not short-circuit
-            result_terms.append(t)
-            self.pc.append(t if is_and else z3.Not(t))
-            vals.append(1)
-            last = v
-        for _ in vals:
-            self.pc.pop()
+        finally:
+            del self.pc[n_pc:]
         if not result_terms:
             return last
         if any(isinstance(t, (ForallV, ExistsV)) for t in result_terms):
@@ -1432,6 +1602,8 @@ class Interp:
     def _bool_combine(self, is_and, terms):
         plain = [t for t in terms if not isinstance(t, (ForallV, ExistsV))]
         quant = [t for t in terms if isinstance(t, (ForallV, ExistsV))]
+        if len(quant) == 1 and isinstance(quant[0], ExistsV) and is_and:
+            return ("and", plain, quant[0])
         if len(quant) == 1 and isinstance(quant[0], ForallV):
             q = quant[0]
             if is_and:
@@ -1458,16 +1630,29 @@ class Interp:
         if isinstance(c, bool):
             return self.eval(node.body if c else node.orelse, env)
         # evaluate both sides under the respective assumption, merge scalars with ite
+        a = b = None
+        a_ok = b_ok = True
+        n_pc = len(self.pc)
         self.pc.append(c)
         try:
             a = self.eval(node.body, env)
+        except Infeasible:
+            a_ok = False
         finally:
-            self.pc.pop()
+            del self.pc[n_pc:]
         self.pc.append(z3.Not(c))
         try:
             b = self.eval(node.orelse, env)
+        except Infeasible:
+            b_ok = False
         finally:
-            self.pc.pop()
+            del self.pc[n_pc:]
+        if not a_ok and not b_ok:
+            raise Infeasible()
+        if not a_ok:
+            return b
+        if not b_ok:
+            return a
         if (is_z3(a) or isinstance(a, (int, float))) and (is_z3(b) or isinstance(b, (int, float))):
             return ite(c, a, b)
         if self.branch(c):
@@ -1597,10 +1782,30 @@ class Interp:
         seq = first
         n = self.seq_len(seq)
 
-        def get(k, seq=seq, g=g, node=node):
+        def get_raw(k, seq=seq, g=g, node=node):
             e2 = dict(g.env)
             self.assign_target(gens[0].target, self.seq_elem(seq, k), e2)
             return self.eval(node.elt, e2)
+
+        # definedness of the element expression: once, for a generic registered index; later (lazy) evaluations are silent
+        if self.definedness:
+            kk = fresh("kc", z3.IntSort())
+            self.register_index(kk)
+            self.pc.append(z3.And(0 <= kk, kk < to_z3num(n)))
+            try:
+                get_raw(kk)
+            finally:
+                self.pc.pop()
+        heap_at_creation = self.heap.copy()
+
+        def get(k):
+            save = (self.definedness, self.heap)
+            self.definedness = False
+            self.heap = heap_at_creation.copy()
+            try:
+                return get_raw(k)
+            finally:
+                self.definedness, self.heap = save
 
         return MapSeq(n, get)
 
@@ -1679,7 +1884,9 @@ class Interp:
     def s_If(self, node, env):
         c = self.truth(self.eval(node.test, env))
         if isinstance(c, (ForallV, ExistsV, tuple)):
-            raise Unsupported("if on a quantified condition (line %s)" % node.lineno)
+            taken = self.branch_quantified(c)
+            self.exec_block(node.body if taken else node.orelse, env)
+            return
         if self.branch(c):
             self.exec_block(node.body, env)
         else:
